@@ -215,6 +215,11 @@ impl Monitor for TwinMon {
 
 pub struct Multi(pub Vec<Box<dyn Monitor>>);
 impl Monitor for Multi {
+    fn start(&mut self, case: &FwCase, snap: &maybenot::verif::Snapshot) {
+        for m in self.0.iter_mut() {
+            m.start(case, snap);
+        }
+    }
     fn after_call(
         &mut self,
         case: &FwCase,
